@@ -204,9 +204,9 @@ Section Parse.
     destruct (run_construct_cg vr ev w pattern_ok selectors_ok ids Hclosed f' k allow interop d None _ Hkm Hp Hidk Er)
       as [c' [Efc' [Hcok Hcg]]].
     rewrite Efc in Efc'. inv Efc'.
-    pose proof (run_construct_idem vr ev w pattern_ok selectors_ok Hpad ids Hclosed (S f') k allow interop d None _ Hkm Hp Hidk Er)
+    pose proof (run_construct_idem vr ev w pattern_ok selectors_ok Hpad ids (closed_ok_weaken vr w ids Hclosed) (S f') k allow interop d None _ Hkm Hp Hidk Er)
       as [_ [_ [Hre _]]].
-    pose proof (run_construct_idem vr ev w pattern_ok selectors_ok Hpad ids Hclosed f') as Hclaim.
+    pose proof (run_construct_idem vr ev w pattern_ok selectors_ok Hpad ids (closed_ok_weaken vr w ids Hclosed) f') as Hclaim.
     pose proof (claim_rc vr ev w pattern_ok selectors_ok ids f' Hclaim) as Hrc.
     unfold class_ok in Hcok.
     apply andb_true_iff in Hcok. destruct Hcok as [Hcok _]. apply andb_true_iff in Hcok. destruct Hcok as [Hcok _].
